@@ -83,7 +83,10 @@ TEMPLATES = TERA_BUILTINS + ["{{ semver }}", "{{ pep440 }}", "{{ major }}.{{ min
              "{{ hash(value=custom, length=20) }}", "{{ hash_int(value=bumped_branch, length=19) }}-{{ hash_int(value=bumped_branch, length=20) }}-{{ hash_int(value=bumped_branch, length=21, allow_leading_zero=true) }}",
              "{{ prefix(value=bumped_branch, length=4294967296) }}", "{{ prefix(value=semver, length=0) }}", "{{ sanitize(value=bumped_branch, max_length=0) }}",
              "{{ prefix(value='ééééé', length=3) }}", "{{ prefix_if(value=post) }}", "{{ missing }}", "{{ 1 / 0 }}", "{% if %}", "{{", "}}", "{{ semver",
-             "{{ custom.a.b.c }}", "{{ sanitize(value=bumped_branch, preset='nope') }}", "{{ sanitize(value=1, preset='uint', separator='x') }}", "none", "NULL",
+             "{{ custom.a.b.c }}", "{{ sanitize(value=bumped_branch, preset='nope') }}", "{{ sanitize(value='a b', preset='nope') }}", "{{ sanitize(value='a b', preset='dotted', separator='-') }}",
+             "{{ sanitize(value=true) }}|{{ hash(value=false, length=4) }}|{{ prefix(value=true, length=2) }}", "{{ sanitize(value=[1, 2]) }}", "{{ hash(value=[major, 'x'], length=5) }}|{{ hash_int(value=semver_obj, length=5) }}",
+             "{{ prefix(value=semver_obj, length=3) }}", "{{ prefix_if(value=[1], prefix='x') }}|{{ prefix_if(value=true, prefix='x') }}|{{ prefix_if(value=1.5, prefix='x') }}", "{{ sanitize(value=1.5) }}|{{ sanitize(value=-3) }}",
+             "{{ format_timestamp(format=\"%Y\") }}", "{{ format_timestamp(value='12', format=\"%Y\") }}", "{{ format_timestamp(value=true) }}", "{{ format_timestamp(value=-1, format='compact_date') }}", "{{ hash(length=3) }}", "{{ prefix(length=3) }}", "{{ sanitize() }}", "{{ sanitize(value=1, preset='uint', separator='x') }}", "none", "NULL",
              "", "   ", "{{ semver }}\n{{ pep440 }}", "{{ 99999999999999999999 }}", "{{ major + 18446744073709551615 }}", "{% set x = major %}{{ x }}",
              "{{ bumped_branch | upper | truncate(length=2) }}", "{{ bumped_timestamp | date(format=\"%Y\") }}", "{{ semver_obj.docker }}", "{{ dirty }}{{ distance }}"]
 RONS = ["(core:[var(Major)], extra_core:[], build:[])", "(core:[], extra_core:[], build:[])", "(core:[var(Minor), var(Major)], extra_core:[], build:[])",
